@@ -77,11 +77,24 @@ fn traced<R>(f: impl FnOnce() -> R) -> (Result<R, String>, Vec<Value>) {
     (r, evs)
 }
 
+static PROGRESS: AtomicU64 = AtomicU64::new(0);
+static CURRENT: Mutex<(usize, usize, String, String)> = Mutex::new((0, 0, String::new(), String::new()));
+
+/// Runs `f` with lock tracing on; a watchdog (see main) notices when it never returns.
+fn traced_call<R>(hi: usize, oi: usize, role: &str, name: &str, f: impl FnOnce() -> R) -> (Result<R, String>, Vec<Value>) {
+    *CURRENT.lock().unwrap() = (hi, oi, role.to_string(), name.to_string());
+    PROGRESS.fetch_add(1, Ordering::SeqCst);
+    let r = traced(f);
+    PROGRESS.fetch_add(1, Ordering::SeqCst);
+    r
+}
+
 fn emit_call<W: Write>(out: &mut W, hi: usize, oi: &mut usize, role: &str, name: &str, ok: bool, evs: Vec<Value>) {
     let v = json!({"ev": "call", "hi": hi, "oi": *oi, "role": role, "name": name,
                    "res": if ok {"ok"} else {"panic"}, "events": evs});
     *oi += 1;
     writeln!(out, "{}", v).unwrap();
+    out.flush().unwrap();
 }
 
 fn extract<W: Write>(out: &mut W, hi: usize, hist: &Value) {
@@ -95,7 +108,7 @@ fn extract<W: Write>(out: &mut W, hi: usize, hist: &Value) {
     let mut oi = 0usize;
     macro_rules! rd {
         ($name:expr, $body:expr) => {{
-            let (r, evs) = traced(|| { $body; });
+            let (r, evs) = traced_call(hi, oi, "reader", $name, || { $body; });
             emit_call(out, hi, &mut oi, "reader", $name, r.is_ok(), evs);
         }};
     }
@@ -154,7 +167,7 @@ fn extract<W: Write>(out: &mut W, hi: usize, hist: &Value) {
     // ---- structural calls (need &mut CompoundFile; never concurrent with readers) ----
     macro_rules! ex {
         ($name:expr, $body:expr) => {{
-            let (r, evs) = traced(|| { $body; });
+            let (r, evs) = traced_call(hi, oi, "exclusive", $name, || { $body; });
             emit_call(out, hi, &mut oi, "exclusive", $name, r.is_ok(), evs);
         }};
     }
@@ -177,7 +190,7 @@ fn extract<W: Write>(out: &mut W, hi: usize, hist: &Value) {
     if let Some(mut s) = h {
         macro_rules! hd {
             ($name:expr, $body:expr) => {{
-                let (r, evs) = traced(|| { $body; });
+                let (r, evs) = traced_call(hi, oi, "handle", $name, || { $body; });
                 emit_call(out, hi, &mut oi, "handle", $name, r.is_ok(), evs);
             }};
         }
@@ -207,6 +220,15 @@ fn extract<W: Write>(out: &mut W, hi: usize, hist: &Value) {
         hd!("h.set_len.dirty", { let _ = s.set_len(100); });
         hd!("h.set_len.grow", { let _ = s.set_len(9000); });
         hd!("h.set_len.same", { let _ = s.set_len(9000); });
+        // dirty data up to the end of the buffer window, cursor before the end of the stream: the
+        // next read / fill_buf must write back and refill
+        hd!("h.seek.start", { let _ = s.seek(SeekFrom::Start(0)); });
+        for _ in 0..3 {
+            hd!("h.write.window", { let _ = s.write(&[4u8; 1024]); });
+        }
+        hd!("h.read.dirty_refill", { let _ = s.read(&mut buf[..10]); });
+        hd!("h.write.buffered", { let _ = s.write(&[3u8; 5]); });
+        hd!("h.fill_buf.dirty", { let n = s.fill_buf().map(|b| b.len()).unwrap_or(0); s.consume(n.min(3)); });
         hd!("h.write.buffered", { let _ = s.write(&[5u8; 20]); });
         hd!("h.drop.dirty", { drop(s); });
     }
@@ -426,6 +448,8 @@ fn threads<W: Write>(out: &mut W, hi: usize, hist: &Value, out_path: &str) {
             } else if kind < 8 {
                 let n = [0u64, 100, 4000, 4096, 5000, 9000][rng.below(6) as usize];
                 (n, format!("set_len{}", n))
+            } else if kind < 9 {
+                (lens[which].max(1500), "overwrite_read".to_string())
             } else {
                 (lens[which], "read".to_string())
             };
@@ -437,6 +461,15 @@ fn threads<W: Write>(out: &mut W, hi: usize, hist: &Value, out_path: &str) {
                     s.flush()?;
                 } else if kind < 8 {
                     s.set_len(to)?;
+                } else if kind < 9 {
+                    // unflushed overwrite, then reads that have to write it back first
+                    let mut b = vec![0u8; 900];
+                    s.seek(SeekFrom::Start(0))?;
+                    s.write_all(&vec![0x66u8; 1500])?;
+                    s.seek(SeekFrom::Start(100))?;
+                    let _ = s.read(&mut b)?;
+                    let _ = s.read(&mut b)?;
+                    s.flush()?;
                 } else {
                     let mut b = vec![0u8; 700];
                     s.seek(SeekFrom::Start(0))?;
@@ -501,6 +534,32 @@ fn main() {
         i += 1;
     }
     std::panic::set_hook(Box::new(|_| {}));
+    {
+        // extract mode runs on the main thread; a call that blocks on itself (a request while
+        // holding the exclusive guard) never returns: record what it did and leave
+        let out_path = args[2].clone();
+        std::thread::spawn(move || {
+            let mut last = PROGRESS.load(Ordering::SeqCst);
+            let mut since = Instant::now();
+            loop {
+                std::thread::sleep(Duration::from_millis(50));
+                let now = PROGRESS.load(Ordering::SeqCst);
+                if now != last || now % 2 == 0 {
+                    last = now;
+                    since = Instant::now();
+                } else if since.elapsed() > Duration::from_millis(6000) {
+                    cfb::verif::set_lock_tracing(false);
+                    let evs = lock_events_json(cfb::verif::take_lock_events());
+                    let (hi, oi, role, name) = CURRENT.lock().unwrap().clone();
+                    let mut f = std::fs::OpenOptions::new().append(true).create(true).open(&out_path).unwrap();
+                    let tid = evs.last().map(|e| e["t"].clone()).unwrap_or(json!(0));
+                    writeln!(f, "{}", json!({"ev": "call", "hi": hi, "oi": oi, "role": role, "name": name, "res": "stalled", "events": evs})).unwrap();
+                    writeln!(f, "{}", json!({"ev": "end", "hi": hi, "oi": oi + 1, "stalled": true, "finished": [], "threads": [tid]})).unwrap();
+                    std::process::exit(3);
+                }
+            }
+        });
+    }
     let script: Value = serde_json::from_str(&std::fs::read_to_string(&args[1]).expect("script")).expect("json");
     // append mode: the watchdog may have to finish the file from another thread
     let _ = std::fs::remove_file(&args[2]);
